@@ -270,5 +270,5 @@ for _p, _n in (("C01", 200), ("C02", 150), ("C03", 150), ("C05", 150), ("C06", 1
 PLANS["C10"]["stages"].append({"world": "config", "runs": {"quick": 16, "thorough": 500}})
 PLANS["C10"]["rule"] += ("; plus the configuration leg: OpenPGP-mode positives and negatives evaluated in fresh interpreters, a quarter of them with a "
                          "stand-in securesystemslib importable (a root key holder's environment)")
-for _p, _n in (("C04", 150), ("C16", 150), ("C08", 150), ("C11", 150)):
+for _p, _n in (("C04", 150), ("C16", 150), ("C08", 150), ("C11", 150), ("C07", 150)):
     PLANS[_p]["stages"].append({"world": "threads", "runs": {"quick": _n, "thorough": _n * 40}})
